@@ -568,6 +568,22 @@ func isArgmaxGuardSemantic(mr mapRange, guard []ast.Expr, as *ast.AssignStmt, ke
 			split(b.Y)
 			return
 		}
+		// !(a || b) is !a && !b ; !!a is a
+		if u, ok := e.(*ast.UnaryExpr); ok && u.Op == token.NOT {
+			switch x := unparen(u.X).(type) {
+			case *ast.BinaryExpr:
+				if x.Op == token.LOR {
+					split(&ast.UnaryExpr{Op: token.NOT, X: &ast.ParenExpr{X: x.X}})
+					split(&ast.UnaryExpr{Op: token.NOT, X: &ast.ParenExpr{X: x.Y}})
+					return
+				}
+			case *ast.UnaryExpr:
+				if x.Op == token.NOT {
+					split(x.X)
+					return
+				}
+			}
+		}
 		conj = append(conj, e)
 	}
 	for _, g := range guard {
